@@ -57,18 +57,19 @@ class C30(Prop):
                   "command line is built -- the CWL CommandLineBinding rules as cwltool applies them (spec_*) and "
                   "StreamFlow's _get_value_for_command/_get_value_repr/_escape_value/bind/_merge_tokens/sort/"
                   "_get_executable_command plus the translator's quoting flags (sf_*): for every tool of the modelled "
-                  "binding language whose array inputs write shellQuote explicitly and every input object, the text "
-                  "StreamFlow hands to the shell is the reference text, and whenever every piece is quoted (always without "
-                  "ShellCommandRequirement; with it when no binding says shellQuote:false) a POSIX shell gives the tool "
-                  "exactly the reference argv, verbatim, for all strings; EnvVarRequirement values and redirection "
-                  "targets reach the tool verbatim through create_command.  C30_argv_array_refuted: for an array input "
-                  "whose binding does not write shellQuote StreamFlow does not quote prefix, items or the joined value. "
+                  "binding language and every input object, the text StreamFlow hands to the shell is the reference "
+                  "text, and whenever every piece is quoted (always without ShellCommandRequirement; with it when no "
+                  "binding says shellQuote:false) a POSIX shell gives the tool exactly the reference argv, verbatim, for "
+                  "all strings; EnvVarRequirement values and redirection targets reach the tool verbatim through "
+                  "create_command; stdout/stderr are on a file exactly when declared (execute's stream defaults).  "
                   "The models are tied to the code by running generated tools (1..6 bound inputs, every modelled option, "
                   "hostile strings) through StreamFlow and cwltool for real and comparing each model with its "
                   "implementation; the oracle compares what the two tool processes received (argv, environment, "
                   "stdin/stdout/stderr targets).  PARTIAL: binding on array items, records, File arguments, floats, "
                   "JavaScript valueFrom/position are outside the models (item bindings are exercised by the oracle "
-                  "only); the base64 wrapper of execute() and /bin/sh itself are exercised, not modelled.")
+                  "only); for an array binding with shellQuote:false under ShellCommandRequirement spec_* follows the CWL "
+                  "text (nothing quoted) whereas cwltool still quotes the items (known finding); the base64 wrapper of "
+                  "execute() and /bin/sh itself are exercised, not modelled.")
     LEVEL_NOTE = ("Trusted: Coq kernel + vm_compute; hand-written models CwlCmd/Model.v and Shell/Model.v (sh_lex is a "
                   "fragment of the POSIX lexer); cwltool 3.2 as the reference; /bin/sh, base64, CPython str/shlex/sorted. "
                   "No axioms.")
@@ -170,8 +171,8 @@ class C30(Prop):
                     i["bind"]["isep"] = None
             inputs.append(i)
             job[nm] = self._value(rng, typ)
-            if arr and i["bind"] and i["bind"]["quote"] is None and rng.random() < 0.6:
-                # keep most default-quoted arrays shell-safe: the known array-unquoted class must not drown the rest
+            if arr and i["bind"] and i["bind"]["quote"] is None and rng.random() < 0.15:
+                # a few all-safe arrays
                 i["bind"]["prefix"] = i["bind"]["prefix"] and rng.choice(["-p", "--opt", "--opt=", "+"])
                 i["bind"]["isep"] = i["bind"]["isep"] and rng.choice([",", ":", "+"])
                 if typ == "string[]":
@@ -199,7 +200,7 @@ class C30(Prop):
         if rng.random() < 0.35:
             if rng.random() < 0.6:
                 c["stdout"] = rng.choice(FNAMES)
-            if rng.random() < (0.85 if c["stdout"] else 0.5):
+            if rng.random() < 0.5:
                 c["stderr"] = rng.choice(FNAMES) if rng.random() < 0.8 or not c["stdout"] else c["stdout"]
             if rng.random() < 0.5:
                 c["stdin"] = {"name": rng.choice(["in.txt", "i n.txt", "it's in", "$in", "ï.txt"]), "data": self._str(rng)}
@@ -357,32 +358,11 @@ class C30(Prop):
 
     # ---------------------------------------------------------------- known-finding classes
     def _array_pieces(self, c):
-        """pieces of a cwltool argv that come from the binding of an array input that does not write shellQuote
-        (StreamFlow leaves them unquoted); with a binding on the items too, only the array's own prefix"""
-        out = set()
-        for i in c["inputs"]:
-            b = i["bind"]
-            v = c["job"].get(i["name"])
-            if b and i["type"].endswith("[]") and b["quote"] is None and v is not None:
-                if b["prefix"] is not None:
-                    out.add(b["prefix"])
-                if i["item"] is not None:
-                    continue
-                vals = v
-                if not v and not b["vf"]:
-                    continue
-                if b["vf"] and b["vf"][0] == "lit":
-                    vals = [b["vf"][1]]
-                elif b["vf"] and b["vf"][0] == "in":
-                    vals = c["job"].get(b["vf"][1])
-                    vals = vals if isinstance(vals, list) else [vals]
-                items = [_repr(x) for x in vals]
-                joined = b["isep"].join(items) if b["isep"] is not None else None
-                for s in items + ([joined] if joined is not None else []):
-                    out.add(s)
-                    if b["prefix"] is not None:
-                        out.add(b["prefix"] + s)
-        return out
+        """residual of finding 1 (the translator still applies "do not escape composite command tokens" when the
+        items are bound themselves): the prefix of an array binding without shellQuote over bound items"""
+        return {i["bind"]["prefix"] for i in c["inputs"]
+                if i["bind"] and i["item"] is not None and i["bind"]["quote"] is None
+                and i["bind"]["prefix"] is not None and c["job"].get(i["name"])}
 
     def signature(self, c, o, clause):
         """oracle clause + the class of input that explains it.  The two known argv classes are accepted only when
@@ -398,23 +378,40 @@ class C30(Prop):
             hostile = {p for p in pieces if not _safe(p)}
             if sa is None:
                 if hostile:        # any unquoted metacharacter (newline, quote, <, ;, ...) can make the sh line fail
-                    return "sf-fails/array-unquoted"
+                    return "sf-fails/bound-items-array-prefix-unquoted"
             else:
                 k = 0
                 while k < min(len(ra), len(sa)) and ra[k] == sa[k]:
                     k += 1
                 if k < len(ra) and ra[k] in hostile:
-                    return "argv/array-unquoted"
-                if any(i["item"] is not None for i in c["inputs"]) and sorted(ra) == sorted(sa):
-                    return "argv/item-binding-order"
-                # binding on the items AND a binding on the array that does quote: the items are quoted twice
-                twice = [i for i in c["inputs"] if i["item"] is not None and i["bind"] is not None
-                         and i["bind"]["quote"] is not None and (not c["shell"] or i["bind"]["quote"])]
-                if twice and k < min(len(ra), len(sa)) and sa[k] == shlex.quote(ra[k]) and sa[k] != ra[k]:
-                    return "argv/item-and-array-binding-quoted-twice"
-        if clause == "stderr" and c["stdout"] and not c["stderr"] and sf.get("stderr_file") == sf.get("stdout_file") \
-                and ref.get("stderr_file") is None:
-            return "stderr/unset-follows-stdout"
+                    return "argv/bound-items-array-prefix-unquoted"
+                # ShellCommandRequirement + shellQuote: false written on an ARRAY's binding: cwltool still quotes the items
+                # (they are bound one by one with a fresh binding), StreamFlow leaves them unquoted as asked
+                raw_items = {_repr(x) for i in c["inputs"] if c["shell"] and i["bind"] and i["item"] is None
+                             and i["type"].endswith("[]") and i["bind"]["quote"] is False and i["bind"]["isep"] is None
+                             and not i["bind"]["vf"] for x in (c["job"].get(i["name"]) or [])}
+                if k < len(ra) and ra[k] in raw_items and not _safe(ra[k]):
+                    return "argv/array-shellquote-false-items"
+                # bindings on array items: same arguments in another order (cwltool's key starts with the item index),
+                # and/or -- with a binding on the array that quotes -- items that arrive quoted a second time
+                if any(i["item"] is not None for i in c["inputs"]) and len(ra) == len(sa):
+                    twice = any(i["item"] is not None and i["bind"] is not None and i["bind"]["quote"] is not None
+                                and (not c["shell"] or i["bind"]["quote"]) for i in c["inputs"])
+                    rest, requoted = list(ra), 0
+                    for a in sa:
+                        if a in rest:
+                            rest.remove(a)
+                        else:
+                            m = next((r for r in rest if twice and shlex.quote(r) == a), None)
+                            if m is None:
+                                break
+                            rest.remove(m)
+                            requoted += 1
+                    else:
+                        return "argv/item-and-array-binding-quoted-twice" if requoted else "argv/item-binding-order"
+                # an unquoted array prefix over bound items together with the item order: anything can follow
+                if any(p in ra for p in hostile) and any(p not in sa for p in hostile):
+                    return "argv/bound-items-array-prefix-unquoted"
         return f"{clause}/other"
 
     # ---------------------------------------------------------------- model side
@@ -437,10 +434,15 @@ class C30(Prop):
         return f"(VStr {coq_str(v)})"
 
     def coq_case(self, c, o):
-        if "crash" in o or "hang" in o or c.get("kind") != "plain":
+        if "crash" in o or "hang" in o:
             return None
-        if any(i["item"] is not None for i in c["inputs"]):
-            return None
+        ok = "argv" in o["sf"]
+        fb = lambda k: None if not ok or o["sf"][k] is None else o["sf"][k].encode("latin-1")
+        decl = f"{coq_opt(c['stdout'], coq_str)} {coq_opt(c['stderr'], coq_str)}"
+        seen = f"{coq_opt(fb('stdout_file'), coq_str)} {coq_opt(fb('stderr_file'), coq_str)}"
+        streams = f"{decl} {coq_bool(ok)} {seen}"
+        if c.get("kind") != "plain" or any(i["item"] is not None for i in c["inputs"]):
+            return f"CStreams {decl} {seen}" if ok else None
         ins = coq_list([f"(mkI {coq_str(i['name'])} {coq_bool(i['type'].endswith('[]'))} "
                         f"{coq_opt(i['bind'], self._coq_binding)})" for i in c["inputs"]])
         tool = (f"(mkT {coq_bool(c['shell'])} {coq_list([coq_str(x) for x in [PYBIN, DUMP] + c['base']])} "
@@ -456,7 +458,7 @@ class C30(Prop):
             return [_b(PYBIN), _b(DUMP)] + [a.encode("latin-1") for a in o[side]["argv"]]
 
         cmd = [_b(x) for x in o["sf_cmd"]] if o.get("sf_cmd") is not None else None
-        return f"CTool {tool} {job} {coq_opt(cmd, lst)} {coq_opt(argv('sf'), lst)} {coq_opt(argv('ref'), lst)}"
+        return f"CTool {tool} {job} {coq_opt(cmd, lst)} {coq_opt(argv('sf'), lst)} {coq_opt(argv('ref'), lst)} {streams}"
 
     def nontrivial(self, c):
         strs = []
